@@ -395,3 +395,19 @@ def tlc_strict_transport(mc_cfg, trace_path, wd, timeout=600):
     if not ok:
         return {"ok": False, "error": "\n".join(text.splitlines()[-30:]), "drifts": drifts, "stats": stats, "wall": dt}
     return {"ok": True, "drifts": drifts, "stats": stats, "wall": dt}
+
+
+def tlaps_proof(module, wd, timeout=900):
+    """Check a TLAPS proof (tlapm) of spec/<module>.tla in a scratch directory; returns obligations proved / failed."""
+    d = os.path.join(wd, "tlaps")
+    shutil.rmtree(d, ignore_errors=True)
+    os.makedirs(d)
+    shutil.copy(os.path.join(SPEC, module + ".tla"), d)
+    out = os.path.join(d, module + ".out")
+    t0 = time.time()
+    rc, _ = run(["timeout", str(timeout), "tlapm", "--threads", "4", module + ".tla"], cwd=d, out=out)
+    text = open(out, errors="replace").read()
+    m = re.search(r"All (\d+) obligations? proved", text)
+    f = re.search(r"(\d+)/(\d+) obligations failed", text)
+    return {"module": module, "ok": bool(m), "proved": int(m.group(1)) if m else (int(f.group(2)) - int(f.group(1)) if f else 0),
+            "failed": int(f.group(1)) if f else (0 if m else -1), "wall_s": round(time.time() - t0, 1)}
